@@ -10,10 +10,11 @@ F = ["rcgen::KeyPair::public_key_der", "rcgen::KeyPair::public_key_raw", "rcgen:
 def run_mir(tier, seed):
     import sys, pathlib
     sys.path.insert(0, str(pathlib.Path(__file__).resolve().parent.parent.parent / "mirsmt"))
-    import mir_check, dn
+    import mir_check, dn, secret
     # ext_presence: nothing written by the TBS closure is computed from the issuer key's stored document (AKI source, taint over all
     # writer arguments) - covers the code compiled only with the crypto feature, which the Kani queries cannot reach
-    return mir_check.run_obligations([dn.ob_ext_presence, dn.ob_sign_arms])
+    # debug_without_secret: the diagnostics clause - the Debug output of a key pair is built without reading the stored document
+    return mir_check.run_obligations([dn.ob_ext_presence, dn.ob_sign_arms, secret.ob_debug_no_secret])
 
 
 def spec(tier, seed):
@@ -24,6 +25,7 @@ def spec(tier, seed):
     return {"queries": qs, "mir": run_mir, "exhaustive": False,
             "bounds": "the stored key document is 4 symbolic bytes per key (hook keypair_remote_with_secret: a Remote-kind key that carries a document; "
                       "unreachable through the public API, used because only that kind is executable without FFI); one minimal shape per artefact kind",
-            "outside": "every Debug/Display rendering and error text (core::fmt is not tractable: a mutation deriving Debug for KeyPair is NOT detected), "
-                       "public_key_pem/pem() (PEM encoder not tractable), real ring key objects, re-encodings of the key (subsumed for the covered outputs)",
+            "outside": "what core::fmt and ring's own Debug implementations print (environment of the debug_without_secret obligation, which decides only "
+                       "that rcgen hands them nothing derived from the stored key document); Display / error texts (no error value holds key material); "
+                       "public_key_pem/pem() (label and bytes are C14's), real ring key objects, re-encodings of the key (subsumed for the covered outputs)",
             "assumptions": ["S1, S3", "non-interference is checked by self-composition: two runs in one query"]}
